@@ -134,6 +134,7 @@ type LoadBalancer struct {
 	ctx              context.Context
 	cancel           context.CancelFunc
 	healthCheckWg    sync.WaitGroup
+	healthCheckMu    sync.Mutex // orders probe registration (Add) against Stop's cancel
 	wsPool           *WebSocketPool
 }
 
@@ -335,8 +336,19 @@ func (lb *LoadBalancer) checkBackendsHealth() {
 	backends := lb.strategy.GetBackends()
 	lb.mutex.RUnlock()
 
+	// Register the probes of this round before Stop can cancel, or not at
+	// all. Without this, a tick that coincides with Stop calls Add while Stop
+	// is in (or about to leave) Wait: the WaitGroup is "reused before previous
+	// Wait has returned" and panics, or probes start after Stop returned.
+	lb.healthCheckMu.Lock()
+	if lb.ctx.Err() != nil {
+		lb.healthCheckMu.Unlock()
+		return
+	}
+	lb.healthCheckWg.Add(len(backends))
+	lb.healthCheckMu.Unlock()
+
 	for _, backend := range backends {
-		lb.healthCheckWg.Add(1)
 		go func(b *Backend) {
 			defer lb.healthCheckWg.Done()
 			lb.checkBackendHealth(b)
@@ -816,7 +828,9 @@ func (rw *responseWriter) Hijack() (net.Conn, *bufio.ReadWriter, error) {
 // Stop gracefully shuts down the load balancer and waits for all health check goroutines to finish
 func (lb *LoadBalancer) Stop() {
 	logging.L().Info().Msg("shutting down load balancer")
+	lb.healthCheckMu.Lock()
 	lb.cancel()
+	lb.healthCheckMu.Unlock()
 	lb.healthCheckWg.Wait()
 
 	// Shutdown WebSocket pool if enabled
